@@ -126,17 +126,19 @@ def aave_world(frozen_bar=1, n=4):
 
 
 # ---------------------------------------------------------------------------------------------------------
-def squeeth_world(kind="eq", frozen_bar=8, n=10):
+def squeeth_world(kind="eq", frozen_bar=8, n=10, with_osqth=True):
     from . import squeeth as sq
 
     udata, sdata, prices = sq.make_frames(kind, n)
+    name = f"squeeth({kind})" if with_osqth else f"squeeth({kind},no-osqth-entry)"
     ranges = {"in": (sq.TICK0 - 1200, sq.TICK0 + 1200), "lo": (sq.TICK0 - 6000, sq.TICK0 - 3000), "hi": (sq.TICK0 + 3000, sq.TICK0 + 6000)}
 
     def build():
         um, sm = sq.make_markets(udata, sdata)
         ua = sq.SlimUniAdapter(um, ranges)
         sa = sq.SqueethAdapter(sm, ua, sdata)
-        ctx = Ctx(f"squeeth({kind})", prices, USD, [ua, sa], [(sq.WETH, 20), (sq.OSQTH, 50)], sdata.index)
+        # without an oSQTH wallet entry a mint CREATES the entry: a rejected mint must not leave it behind
+        ctx = Ctx(name, prices, USD, [ua, sa], [(sq.WETH, 20), (sq.OSQTH, 50)] if with_osqth else [(sq.WETH, 20)], sdata.index)
         ctx.begin_bar(frozen_bar)
         return ctx
 
@@ -147,7 +149,9 @@ def squeeth_world(kind="eq", frozen_bar=8, n=10):
         ("squni.add[in,part,part]",),
         ("squni.add[in,part,part]", "squeeth.open_deposit_mint[new,one,half,lp]"),
     )
-    w = World(f"squeeth({kind})", build, roots, {"squni.data": udata, "squeeth.data": sdata, "prices": prices})
+    if not with_osqth:
+        roots = ((), ("squeeth.open_deposit_mint[new,one,half,nolp]",))
+    w = World(name, build, roots, {"squni.data": udata, "squeeth.data": sdata, "prices": prices})
     w.allowed_gain = lambda ctx, op: sq.allowed_gain(w, ctx, op)
     return w
 
